@@ -411,6 +411,33 @@ class ExcFlow:
                 return True
         return False
 
+    def _raised_classes(self, fi, call: ast.Call, local_types, bindings, depth=0) -> set:
+        """Class names of the exception object ``raise <call>`` raises: the class called, or - when the call goes to a factory
+        function of the repository - the classes that function constructs and returns (its return annotation as a fall-back)."""
+        nm = dotted(call.func)
+        short = nm.split(".")[-1] if nm else "Unknown"
+        if isinstance(call.func, ast.Name) and self.f.resolve_class(fi.module, call.func.id) is not None:
+            return {short}
+        ts = self.callable_targets(fi, call.func, local_types, bindings) if depth < 3 else None
+        out = set()
+        for t in ts or []:
+            if t.name == "__init__" and t.cls is not None:
+                out.add(t.cls.name)
+                continue
+            found = False
+            for n in walk_no_nested_defs(t.node):
+                if isinstance(n, ast.Return) and isinstance(n.value, ast.Call):
+                    out |= self._raised_classes(t, n.value, {}, {}, depth + 1)
+                    found = True
+            if not found and t.node.returns is not None:
+                c = self.f.annotation_class(t.module, t.node.returns)
+                if c is not None:
+                    out.add(c.name)
+                    found = True
+            if not found:
+                out.add("Unknown")
+        return out or {short}
+
     def _block(self, fi, stmts, mode, bindings, local_types, exc_vars, depth) -> set:
         out = set()
         for i_, s in enumerate(stmts):
@@ -421,8 +448,7 @@ class ExcFlow:
             if isinstance(s, ast.Raise):
                 names = set()
                 if isinstance(s.exc, ast.Call):
-                    nm = dotted(s.exc.func)
-                    names.add(nm.split(".")[-1] if nm else "Unknown")
+                    names |= self._raised_classes(fi, s.exc, local_types, bindings)
                     out |= self._expr_calls(fi, s.exc, mode, bindings, local_types, exc_vars, depth)
                 elif isinstance(s.exc, ast.Name):
                     names |= exc_vars.get(s.exc.id, {"<" + s.exc.id + ">"})
